@@ -236,7 +236,7 @@ def explore(fn: Callable[[Engine], Any], max_paths=2_000_000, max_cex=8, want_sa
     if deadline is None:
         deadline = time.time() + float(os.environ.get("VT_CELL_BUDGET_S", "900"))
     import signal
-    path_budget = float(os.environ.get("VT_PATH_BUDGET_S", "120"))
+    path_budget = float(os.environ.get("VT_PATH_BUDGET_S", "30"))
     use_alarm = hasattr(signal, "setitimer") and threading.current_thread() is threading.main_thread()
 
     def _on_alarm(signum, frame):
@@ -269,9 +269,20 @@ def explore(fn: Callable[[Engine], Any], max_paths=2_000_000, max_cex=8, want_sa
             if len(st.cex) < max_cex:
                 st.cex.append(dict(msg=f"an execution path did not finish within {path_budget:.0f} s (non-termination?)",
                                    model=model, info=dict(kind="path-did-not-terminate", notes=e.notes[:4])))
+            st.timeouts = getattr(st, "timeouts", 0) + 1
+            if st.timeouts >= 2:
+                st.inconclusive.append("exploration stopped after two paths that did not terminate")
+                st.paths += 1
+                break
         except CexFound as c:
+            st.ncex = getattr(st, "ncex", 0) + 1
             if len(st.cex) < max_cex:
                 st.cex.append(dict(msg=c.msg, model=c.model, info=c.info))
+            if st.ncex >= 4 * max_cex:
+                # the code under test is broken on many paths: enough evidence, stop this cell early
+                st.paths += 1
+                st.stopped_early = True
+                break
         except Inconclusive as inc:
             st.inconclusive.append(str(inc))
             if len(st.inconclusive) > 3:
